@@ -29,7 +29,7 @@ Definition onat_eqb (a b : option nat) : bool :=
 Definition check_rcase (c : rcase) : bool :=
   let n := r_tree c in
   forallb (fun pr => onat_eqb (prior_at float (fst pr) n) (snd pr)) (r_resolve c)
-  && forallb (fun pv => match lookup float (fst pv) (inst_from_vector float fbin n (r_vec c)) with
+  && forallb (fun pv => match lookup float (fst pv) (inst_from_vector float fbin funop n (r_vec c)) with
                         | Some (IV x) => fbits_eqb x (snd pv)
                         | _ => false
                         end) (r_access c).
